@@ -45,6 +45,13 @@ def read_sensortran_files(
     """
     filepathlist_dts = sorted(Path(directory).glob("*BinaryRawDTS.dat"))
 
+    # The file names only contain the time of the day. Order the files by the
+    # time stamp stored in their header, so that measurements that continue past
+    # midnight stay in chronological order.
+    filepathlist_dts = sorted(
+        filepathlist_dts, key=lambda f: read_sensortran_single(f)[0]["time"]
+    )
+
     # Make sure that the list of files contains any files
     assert len(filepathlist_dts) >= 1, (
         "No RawDTS measurement files found "
